@@ -40,6 +40,13 @@ def gen_cases(rng, tier: str) -> list[dict]:
             prior.append(c["p"])
             c["route"] = rng.choice(["LD", "FATL"])
             cases.append(c)
+    for origin, pairs in (("compensating-magnitudes", common.compensating_products(rng, common.sizes(tier, 150, 1500))),
+                          ("near-special", common.near_special(rng, common.sizes(tier, 150, 1500)))):
+        for e, pt in pairs:
+            c = common.make_eval_case(origin, e, pt)
+            c["prior"] = []
+            c["route"] = rng.choice(["LD", "FATL"])
+            cases.append(c)
     return cases
 
 
